@@ -404,7 +404,7 @@ func c19Wrappers(w *World, r *Report, safe map[*types.Named]bool) {
 		if own != nil {
 			// pair type: R19.4
 			if len(emb) == 2 {
-				c19Pair(w, r, n, emb)
+				c19Pair(w, r, "R19.4", false, n, emb)
 				// its literals must fill both halves from safe constructors
 				c19Literals(w, r, "R19.4", n, emb, isSafeCtor)
 				continue
@@ -539,12 +539,12 @@ func exprFromSafeCtor(info *types.Info, fd *ast.FuncDecl, e ast.Expr, isSafeCtor
 }
 
 // c19Pair: R19.4 on the reader+writer pair type.
-func c19Pair(w *World, r *Report, n *types.Named, emb []*types.Var) {
+func c19Pair(w *World, r *Report, rule string, closeOnly bool, n *types.Named, emb []*types.Var) {
 	closeM := declaredMethod(n, "Close")
 	key := "type:" + qualName(n) + "|Close"
 	fn := w.SSAFunc(closeM)
 	if fn == nil {
-		r.Undecided("R19.4", key, w.Pos(closeM.Pos()), "no SSA body")
+		r.Undecided(rule, key, w.Pos(closeM.Pos()), "no SSA body")
 		return
 	}
 	fieldOfVal := func(v ssa.Value) *types.Var {
@@ -588,21 +588,24 @@ func c19Pair(w *World, r *Report, n *types.Named, emb []*types.Var) {
 		}
 	})
 	if !ok {
-		r.Undecided("R19.4", key, w.Pos(closeM.Pos()), "path budget exceeded")
+		r.Undecided(rule, key, w.Pos(closeM.Pos()), "path budget exceeded")
 	} else {
-		r.Check(bad == "" && paths > 0, "R19.4", key, w.Pos(closeM.Pos()), fmt.Sprintf("both halves closed exactly once on all %d paths", paths), bad, "paths", paths)
+		r.Check(bad == "" && paths > 0, rule, key, w.Pos(closeM.Pos()), fmt.Sprintf("both halves closed exactly once on all %d paths", paths), bad, "paths", paths)
 	}
 
+	if closeOnly {
+		return
+	}
 	// Closed = conjunction
 	closedM := declaredMethod(n, "Closed")
 	key = "type:" + qualName(n) + "|Closed"
 	if closedM == nil {
-		r.Violate("R19.4", key, w.Pos(n.Obj().Pos()), "pair type has no Closed method of its own (ambiguous promotion)")
+		r.Violate(rule, key, w.Pos(n.Obj().Pos()), "pair type has no Closed method of its own (ambiguous promotion)")
 		return
 	}
 	fn = w.SSAFunc(closedM)
 	if fn == nil {
-		r.Undecided("R19.4", key, w.Pos(closedM.Pos()), "no SSA body")
+		r.Undecided(rule, key, w.Pos(closedM.Pos()), "no SSA body")
 		return
 	}
 	closedCallField := func(v ssa.Value) *types.Var {
@@ -681,10 +684,10 @@ func c19Pair(w *World, r *Report, n *types.Named, emb []*types.Var) {
 		}
 	})
 	if !ok {
-		r.Undecided("R19.4", key, w.Pos(closedM.Pos()), "path budget exceeded")
+		r.Undecided(rule, key, w.Pos(closedM.Pos()), "path budget exceeded")
 		return
 	}
-	r.Check(bad == "" && paths > 0, "R19.4", key, w.Pos(closedM.Pos()), fmt.Sprintf("Closed is the conjunction of both halves on all %d paths", paths), bad, "paths", paths)
+	r.Check(bad == "" && paths > 0, rule, key, w.Pos(closedM.Pos()), fmt.Sprintf("Closed is the conjunction of both halves on all %d paths", paths), bad, "paths", paths)
 }
 
 // c19Helpers: R19.5 — in TryClose / LogClose the Close call on the parameter
@@ -840,4 +843,46 @@ func isClosedGuard(w *World, g *ssa.Function) bool {
 		good = false
 	})
 	return okp && good && n > 0
+}
+
+// rulePairClosesBothHalves: the Close of every reader+writer pair type of package streams closes both
+// halves on every path (registered under C17 as well: the peer of the write half sees end-of-stream only
+// when that half is closed, whatever closing the read half returned).
+func rulePairClosesBothHalves(w *World, r *Report, rule string) {
+	closer := w.closerIface()
+	p := w.Pkg("internal/streams")
+	if closer == nil || p == nil {
+		r.Undecided(rule, "anchor", "-", "anchor unresolved: streams closer interface")
+		return
+	}
+	n := 0
+	sc := p.Types.Scope()
+	for _, nm := range sc.Names() {
+		tn, ok := sc.Lookup(nm).(*types.TypeName)
+		if !ok {
+			continue
+		}
+		named, ok := tn.Type().(*types.Named)
+		if !ok {
+			continue
+		}
+		st, ok := named.Underlying().(*types.Struct)
+		if !ok || declaredMethod(named, "Close") == nil {
+			continue
+		}
+		var emb []*types.Var
+		for i := 0; i < st.NumFields(); i++ {
+			f := st.Field(i)
+			if f.Embedded() && implementsIface(f.Type(), closer) {
+				emb = append(emb, f)
+			}
+		}
+		if len(emb) == 2 {
+			n++
+			c19Pair(w, r, rule, true, named, emb)
+		}
+	}
+	if n == 0 {
+		r.Undecided(rule, "pairtypes:streams", "-", "no reader+writer pair type found in package streams")
+	}
 }
